@@ -1090,6 +1090,160 @@ def run_routes(ctx, cls, ploidy, pops, seed, only=None):
 
 
 # ----------------------------------------------------------------------------
+# layer M: histories on ONE model object (coefficients re-assigned through the setters and edited in place)
+def _op_table(m, t):
+    """name -> (kind, function(model, ua, beta) -> (new expected u_a, new expected beta)).  The function applies the
+    operation to the live model through its public attributes; the harness keeps its own expected arrays."""
+    perm = list(range(m))[::-1]
+
+    def set_ua(f):
+        def op(model, ua, beta):
+            new = numpy.ascontiguousarray(f(ua.copy()), dtype="float64")
+            model.u_a = new.copy()
+            return new, beta
+        return op
+
+    def inplace_ua(f):
+        def op(model, ua, beta):
+            f(model)                     # edits model.u_a in place (augmented assignments also re-enter the setter)
+            new = ua.copy()
+            holder = type("H", (), {})()
+            holder.u_a = new
+            f(holder)
+            return holder.u_a, beta
+        return op
+
+    def neg_all(o):
+        o.u_a *= -1.0
+
+    def neg_first(o):
+        o.u_a[0, :] *= -1.0
+
+    def zero_last(o):
+        o.u_a[m - 1, :] = 0.0
+
+    def reverse_rows(o):
+        o.u_a[:] = o.u_a[perm].copy()
+
+    def neg_cell(o):
+        o.u_a[m - 1, t // 2] = -o.u_a[m - 1, t // 2] - 1.0
+
+    def set_beta(model, ua, beta):
+        new = -beta.copy() + 0.5
+        model.beta = new.copy()
+        return ua, new
+
+    def inplace_beta(model, ua, beta):
+        model.beta += 1.0
+        return ua, beta + 1.0
+
+    return {
+        "set:negate": ("u_a-setter", set_ua(lambda a: -a)),
+        "set:negate-first-marker": ("u_a-setter", set_ua(lambda a: numpy.vstack([-a[:1], a[1:]]))),
+        "set:permute-markers": ("u_a-setter", set_ua(lambda a: a[perm])),
+        "set:zero-last-marker": ("u_a-setter", set_ua(lambda a: numpy.vstack([a[:-1], 0.0 * a[-1:]]))),
+        "inplace:*=-1": ("u_a-inplace", inplace_ua(neg_all)),
+        "inplace:row0*=-1": ("u_a-inplace", inplace_ua(neg_first)),
+        "inplace:zero-last-row": ("u_a-inplace", inplace_ua(zero_last)),
+        "inplace:reverse-rows": ("u_a-inplace", inplace_ua(reverse_rows)),
+        "inplace:one-cell": ("u_a-inplace", inplace_ua(neg_cell)),
+        "set:beta": ("beta-setter", set_beta),
+        "inplace:beta+=1": ("beta-inplace", inplace_beta),
+    }
+
+
+M_OPS = tuple(_op_table(2, 16))
+
+
+def m_plan(tier):
+    """[(population size limit, history depth)]"""
+    return [(2, 3), (3, 1)] if tier == "thorough" else [(2, 2), (3, 1)]
+
+
+def m_pops(tier):
+    out = []
+    done = 0
+    for nmax, depth in m_plan(tier):
+        new = [(p, depth) for p in universe(2, nmax) if len(p) > done]
+        if tier != "thorough" and nmax == 3:
+            new = new[::8]               # quick: every eighth 3-individual population
+        out += new
+        done = nmax
+    return out
+
+
+def run_model_histories(ctx, pop, depth, seed, only=None):
+    """Every sequence of <= depth coefficient operations on one live model, a full query after every step."""
+    L = lib()
+    m = len(pop[0][0])
+    wide, _, U0 = models(m, seed)
+    t = U0.shape[1]
+    ops = _op_table(m, t)
+    mat = pop_mat(pop)
+    pg = make_pg(mat, seed)
+    Z = mat.sum(0, dtype="int8")
+    pres = presence(mat)
+    fixed = bool(((pres == 1) | (pres == 2)).all())
+    n = len(pop)
+    trait = numpy.array([f"tr{k}" for k in range(t)], dtype=object)
+    base = dict(layer="M", m=m, pop=[list(map(list, ind)) for ind in pop], seed=seed)
+
+    def query(model):
+        ctx.transitions += 6
+        return (model.usl(pg), model.lsl(pg), model.usl(pg, unscale=True), model.lsl(pg, unscale=True),
+                model.gebv_numpy(Z), model.gebv(pg).unscale(), model.usl(Z), model.lsl(Z))
+
+    QN = ("usl", "lsl", "usl(unscale)", "lsl(unscale)", "gebv_numpy", "gebv", "usl[ndarray]", "lsl[ndarray]")
+
+    def check(live, ua, beta, kind, hist):
+        acc = []
+        if not (numpy.array_equal(live.u_a, ua) and numpy.array_equal(live.beta, beta)):
+            acc.append(Violation(f"{MODEL}.u_a-beta[after:{kind}]:coefficients-differ-from-assignment",
+                                 f"after {hist}: u_a {live.u_a.tolist()} expected {ua.tolist()}; beta {live.beta.tolist()} expected {beta.tolist()}"))
+            return acc
+        fresh = L["M"](beta=beta.copy(), u_misc=None, u_a=ua.copy(), trait=trait)
+        ql, qf = query(live), query(fresh)
+        for nm, a, b in zip(QN, ql, qf):
+            if not (numpy.shape(a) == numpy.shape(b) and bool(numpy.allclose(a, b, rtol=1e-9, atol=1e-12))):
+                acc.append(Violation(f"{MODEL}.{nm}[after:{kind}]:differs-from-fresh-model",
+                                     f"after {hist} on one model object {nm} = {numpy.asarray(a).tolist()}, a fresh model with the same "
+                                     f"coefficients gives {numpy.asarray(b).tolist()} (u_a = {ua.tolist()})"))
+        # the property's own clauses for the live object, against the Fraction reference for the CURRENT effects
+        gref = gebv_reference(pop, ua)
+        acc += check_limits(live, ql[0], ql[1], gref, n, pres, fixed, f"phased,after:{kind}", "reference")
+        return acc
+
+    seqs = [()]
+    for d in range(1, depth + 1):
+        seqs += list(itertools.product(M_OPS, repeat=d))
+    for seq in seqs:
+        if only is not None and list(seq) != only:
+            continue
+        ctx.evaluations += 1
+        case = dict(base, ops=list(seq))
+
+        def body():
+            ua, beta = wide.u_a.copy(), wide.beta.copy()
+            live = L["M"](beta=beta.copy(), u_misc=None, u_a=ua.copy(), trait=trait)
+            acc = check(live, ua, beta, "construction", "construction")
+            for i, name in enumerate(seq):
+                kind, fn = ops[name]
+                ua, beta = fn(live, ua, beta)
+                acc += check(live, ua, beta, kind, list(seq[:i + 1]))
+                ctx.count(f"M:op:{name}")
+                if acc:
+                    break
+            _raise(acc)
+        if guard(ctx, body, case, f"{MODEL}.usl-lsl[model-history]:"):
+            ctx.traces += 1
+        ctx.count("M:histories")
+    ctx.state(digest(("M", pop)))
+    if not fixed:
+        ctx.flag("M:polymorphic-population")
+        ctx.nontriv(digest(("M", pop)))
+
+
+# ----------------------------------------------------------------------------
 # layer G: geometric family of large populations
 def big_sizes(tier):
     """2^k - 1, 2^k, 2^k + 1 for k <= 17 (up to 131 073 diploids) beyond the contiguous sweep: one copy short of
@@ -1212,6 +1366,10 @@ def shards(tier, seed):
     big = big_sizes(tier)
     for k in range(6):
         out.append(("G", tuple(big[k::6])))
+    mp = m_pops(tier)[::-1]
+    K = 24 if tier == "thorough" else 8
+    for k in range(K):
+        out.append(("M", tuple(mp[k::K])))
     return out
 
 
@@ -1225,7 +1383,8 @@ def run_shard(spec, ctx):
                                   "tenth 2-individual founder, 1 from the 3-individual founders",
                        "effects": list(effects(ctx.seed)), "xoprob_q": q_value(ctx.seed),
                        "R_kinds(class, ploidy)": [list(k) for k in R_KINDS], "R_population_size_max": r_nmax(ctx.tier),
-                       "R_routes": list(ROUTES), "G_big_sizes": big_sizes(ctx.tier), "G_patterns": list(G_PATTERNS)})
+                       "R_routes": list(ROUTES), "G_big_sizes": big_sizes(ctx.tier), "G_patterns": list(G_PATTERNS),
+                       "M_plan(population size <=, history depth)": [list(x) for x in m_plan(ctx.tier)], "M_ops": list(M_OPS)})
     if spec[0] == "E":
         _, m, nmax, level, pops = spec
         for pop in pops:
@@ -1237,6 +1396,9 @@ def run_shard(spec, ctx):
         run_routes(ctx, spec[1], spec[2], spec[3], ctx.seed)
     elif spec[0] == "G":
         run_big(ctx, spec[1], ctx.seed)
+    elif spec[0] == "M":
+        for pop, depth in spec[1]:
+            run_model_histories(ctx, pop, depth, ctx.seed)
     else:
         run_sweep(ctx, spec[1], ctx.seed)
 
@@ -1277,6 +1439,11 @@ def finalize(ctx, tier, seed):
         assert f in ctx.flags, f
     assert c.get("G:sizes", 0) == len(big_sizes(tier))
     assert c.get("named-parent-edges", 0) > 0
+    for name in M_OPS:
+        assert c.get(f"M:op:{name}", 0) > 0, name
+    exp_h = sum(sum(len(M_OPS) ** d for d in range(depth + 1)) for _, depth in m_pops(tier))
+    assert c.get("M:histories", 0) == exp_h, (c.get("M:histories"), exp_h)
+    assert "M:polymorphic-population" in ctx.flags
 
 
 def replay(case, ctx):
@@ -1325,5 +1492,8 @@ def replay(case, ctx):
         run_routes(ctx, cls, ploidy, [pop], seed, only=only)
     elif lay == "G":
         run_big(ctx, [case["n"]], seed, only=(case["fi"], case["pattern"]))
+    elif lay == "M":
+        pop = tuple(tuple(tuple(h) for h in ind) for ind in case["pop"])
+        run_model_histories(ctx, pop, len(case["ops"]), seed, only=list(case["ops"]))
     else:
         run_sweep(ctx, [case["n"]], seed, only=case["sub"])
